@@ -140,7 +140,7 @@ def draw_index(rng, scale, want=None):
     """a grid index; with `want` one whose quotient class is `want` (searched from random starting points: which indices have an
     inexact quotient depends on the bits of the scale)"""
     for _ in range(400):
-        k = rng.choice([rng.randint(-20, 20), rng.randint(-20, 20), rng.randint(-5000, 5000), rng.randint(-2 ** 31, 2 ** 31)])
+        k = rng.choice([rng.randint(-20, 20), rng.randint(-300, 300), rng.randint(-5000, 5000), rng.randint(-2 ** 31, 2 ** 31)])
         c = quotient_class(k, scale)
         if c is not None and (want is None or c == want):
             return k
@@ -1464,6 +1464,23 @@ def describe(case, impl):
             f"original changed by mutating the copy: {impl['before'] != impl['after']}; differing probes {diff}")
 
 
+def simpler_scaled(tree):
+    """a scaled leaf at the root with fewer non-default properties / one limit moved to zero"""
+    if tree['t'] != 'scaled':
+        return
+    s, lo, hi = _f(tree['scale']), _f(tree['min']), _f(tree['max'])
+    plain = dict(tree, unit='', fmt='%g', ar=tree['scale'], rr=fj(1.2e-7))
+    if plain != tree:
+        yield plain
+    if lo < 0.0 < hi or (lo == hi and lo != 0.0):
+        yield dict(tree, min=fj(0.0)) if lo < 0.0 else dict(tree, max=fj(0.0))
+        yield dict(tree, max=fj(0.0)) if hi > 0.0 else dict(tree, min=fj(0.0))
+    elif 0.0 < lo:
+        yield dict(tree, min=fj(0.0))
+    elif hi < 0.0:
+        yield dict(tree, max=fj(0.0))
+
+
 def shrink(ctx, case, clause):
     """descend into the tree / pair while a smaller case fails the same clause"""
     if case['k'] == 'cmdcompat':
@@ -1478,6 +1495,7 @@ def shrink(ctx, case, clause):
             for path, sub in dicodec.subtrees(case['tree']):
                 if len(path) == 1:
                     cands.append(dict(case, tree=sub, probes=[]))
+            cands += [dict(case, tree=t_, probes=[]) for t_ in simpler_scaled(case['tree'])]
         for sc in cands:
             try:
                 if sc['k'] == 'compat':
